@@ -589,6 +589,11 @@ func (c *Ctx) GB(fn *ssa.Function) []*ssa.BasicBlock {
 	if fn == nil {
 		return nil
 	}
+	// whoever scans the group of a known function analyses that function: helpers shared with other
+	// functions are looked at through its calls (lookThrough)
+	if c.curRoot != fn && !c.IsNew(fn) {
+		c.curRoot, c.bindParam = fn, nil
+	}
 	g := c.Group(fn)
 	if len(g) == 1 {
 		return fn.Blocks
